@@ -1555,6 +1555,75 @@ func genExits(repo, out string) {
 		g.fail("SendBatch missing")
 	}
 	g.def("sendBatchWaitContexts", "List String", leanList(sbWaits))
+	// admin_client.go checkProcedureWithBackoff: the contexts of the state poll and of the sleep
+	// between polls, and every context made inside the loop
+	var pollCtx []string
+	if fd := findMethod(parse(filepath.Join(repo, "admin_client.go")), "client", "checkProcedureWithBackoff"); fd != nil {
+		ast.Inspect(fd.Body, func(n ast.Node) bool {
+			if c, ok := n.(*ast.CallExpr); ok {
+				switch fn := exprStr(c.Fun); fn {
+				case "hrpc.NewGetProcedureState", "sleepAndIncreaseBackoff":
+					if len(c.Args) >= 1 {
+						pollCtx = append(pollCtx, strings.TrimPrefix(fn, "hrpc.")+":"+exprStr(c.Args[0]))
+					}
+				case "context.WithTimeout", "context.WithCancel", "context.WithDeadline", "context.Background", "context.TODO":
+					pollCtx = append(pollCtx, "newctx:"+fn)
+				}
+			}
+			return true
+		})
+	} else {
+		g.fail("checkProcedureWithBackoff missing")
+	}
+	g.def("procedurePollContexts", "List String", leanList(pollCtx))
+	// zk/client.go LocateResource: the session is released by a defer placed before the read
+	var zkSteps []string
+	if fd := findMethod(parse(filepath.Join(repo, "zk", "client.go")), "client", "LocateResource"); fd != nil {
+		for _, st := range fd.Body.List {
+			switch x := st.(type) {
+			case *ast.IfStmt:
+				if strings.Contains(nodeStr(x), "zk.Connect(") {
+					zkSteps = append(zkSteps, "connect")
+				}
+			case *ast.DeferStmt:
+				if nodeStr(x.Call) == "conn.Close()" {
+					zkSteps = append(zkSteps, "defer-close")
+				}
+			case *ast.AssignStmt:
+				if strings.Contains(nodeStr(x), "zk.Connect(") {
+					zkSteps = append(zkSteps, "connect")
+				}
+				if strings.Contains(nodeStr(x), "conn.Get(") {
+					zkSteps = append(zkSteps, "get")
+				}
+			case *ast.ExprStmt:
+				if nodeStr(x.X) == "conn.Close()" {
+					zkSteps = append(zkSteps, "close")
+				}
+			}
+		}
+	} else {
+		g.fail("zk LocateResource missing")
+	}
+	g.def("zkLocateSteps", "List String", leanList(zkSteps))
+	// client.go MarshalJSON (DebugState): the caches are rendered in place, through pointers
+	var dbgRefs []string
+	if fd := findMethod(parse(filepath.Join(repo, "client.go")), "client", "MarshalJSON"); fd != nil {
+		ast.Inspect(fd.Body, func(n ast.Node) bool {
+			if as, ok := n.(*ast.AssignStmt); ok && len(as.Lhs) == 1 && len(as.Rhs) == 1 {
+				if l := exprStr(as.Lhs[0]); l == "rcc" || l == "krc" {
+					dbgRefs = append(dbgRefs, l+" := "+nodeStr(as.Rhs[0]))
+				}
+			}
+			if c, ok := n.(*ast.CallExpr); ok && strings.HasSuffix(exprStr(c.Fun), ".debugInfo") {
+				dbgRefs = append(dbgRefs, exprStr(c.Fun))
+			}
+			return true
+		})
+	} else {
+		g.fail("client MarshalJSON missing")
+	}
+	g.def("debugStateCacheRefs", "List String", leanList(dbgRefs))
 	g.def("findClientsLocateCtxPerCall", "Bool", fmt.Sprint(perCall))
 	g.def("findClientsLocateCtx", "List String", leanList(locCtx))
 	g.def("findClientsAfterFunc", "List String", leanList(afterFuncs))
